@@ -98,7 +98,14 @@ def main(argv: list[str]) -> int:
         n_samples = job.get("samples", 0)
         for idx in range(job["start"], job["end"]):
             rng = case_rng(job["seed"], job["pid"], family.name, idx)
-            case = family.gen(rng, job["tier"])
+            try:
+                case = family.gen(rng, job["tier"])
+            except Exception as exc:  # noqa: BLE001  generator bug: harness error, not a verdict
+                res = Result(inconclusive=f"generator error: {type(exc).__name__}: {exc}")
+                res.obs["_harness_error"] = 1
+                res.sets["harness_error_text"] = [traceback.format_exc()[-600:]]
+                out.write(json.dumps({"family": family.name, "index": idx, "hash": f"generr{idx}", "result": res.to_json(), "elapsed": 0.0}) + "\n")
+                continue
             res, el = run_one(family, case)
             shrunk = None
             if res.violations and family.shrink is not None:
